@@ -166,6 +166,10 @@ def base_pars(i, seed, style="random"):
     for q in i.parameters.kernel_parameters:
         if q.is_control:
             pars[q.name] = float(int(round(pars[q.name])))
+    for q in i.parameters.call_parameters:
+        # enumerated parameters (e.g. spherical_sld shape): only the listed choices are meaningful
+        if getattr(q, "choices", None) and q.name in pars:
+            pars[q.name] = float(min(max(int(round(pars[q.name])), 0), len(q.choices) - 1))
     pars = {k: v for k, v in pars.items()
             if not (k in MAGNETIC_COMMON or k.endswith(("_M0", "_mtheta", "_mphi")))}
     return pars
